@@ -160,6 +160,96 @@ class Direct:
                         self.v("reward-bound-wrong-with-fees", "height %d fee %d reward=bound+%d accepted=%s" % (h, fee, delta, ok3), w)
 
 
+def node_lane(st, rng, nsetups, ndeliv):
+    """the same value rules at the level of a whole node: blocks are delivered over the wire to a real node while a
+    'miner thread' is emulated at the one point where it could interleave -- inside the validation window of the relay
+    path.  If the chain state served at that instant already contains the (not yet validated) block, the emulated miner does
+    what the real one does: builds a child on the served head, adds it, and hands the result back as validated state.
+    Afterwards conservation is checked along the node's active chain from the real unspent maps."""
+    from skv import nodekit
+    import skepticoin.networking.remote_peer as rp
+    import skepticoin.consensus as cons
+    from skepticoin.signing import SECP256k1PublicKey
+    c = st.c
+    for n in range(nsetups):
+        world = gen.World(rng)
+        world.grow(rng.choice([4, 7]), rng, tx_prob=0.5, bias="linear")
+        sn = nodekit.SingleNode(world, rng, "c02-%d" % n, npeers=2)
+        cm = sn.cm
+        if not hasattr(rp, "_skv_orig_validate"):
+            rp._skv_orig_validate = rp.validate_block_in_coinstate
+        acted = []
+
+        def hooked(block, coinstate, _sn=sn, _world=world):
+            served, _pool = _sn.cm.get_state()
+            c["validation_window_observations"] = c.get("validation_window_observations", 0) + 1
+            if served.current_chain_hash == block.hash():
+                # emulated miner: candidate on the served head, nonce search with the node's own assembly
+                key = SECP256k1PublicKey(_world.keys[0][1])
+                ts = max(_sn.net.clock.t, served.head().timestamp + 1)
+                for nonce in range(20000):
+                    cand = cons.construct_block_for_mining(served, [], key, ts, b"", nonce)
+                    if cand.hash() < cand.target:
+                        try:
+                            _sn.cm.set_coinstate(served.add_block(cand, _sn.net.clock.t))
+                            acted.append(cand.hash())
+                        except Exception:
+                            pass
+                        break
+            return rp._skv_orig_validate(block, coinstate)
+        rp.validate_block_in_coinstate = hooked
+        checked = set(world.chain.order)
+        for k in range(ndeliv):
+            head = cm.coinstate.current_chain_hash
+            if head not in world.chain.blocks:
+                break
+            cls = rng.choice(["valid-spend", "reward-plus-one", "reward-split-outputs", "overspend-by-one", "reward-exactly-at-bound",
+                              "reward-double-subsidy", "zero-value-output"])
+            try:
+                built = cstream.C02_CLASSES[cls](world, head, rng)
+            except Exception:
+                built = None
+            if built is None:
+                continue
+            rblk, must, may = built
+            sn.net.clock.t = world.now = max(world.now, rblk.ts + 5)
+            codes = ref.block_codes(world.chain, rblk, world.now)
+            if not (must <= codes and codes <= (must | may)):
+                continue
+            c["node_lane_deliveries"] = c.get("node_lane_deliveries", 0) + 1
+            raw = rng.choice(sn.active() or [sn.add_peer()])
+            raw.push(sn.wire.block(bridge.rblock_to_real(rblk)))
+            sn.settle()
+            cs = cm.coinstate
+            w = {"lane": "node", "chain": gen.blocks_hex(world, world.chain.order[1:]), "candidate": rblk.enc().hex(), "now": world.now,
+                 "class": cls, "period": ref.RETARGET_PERIOD}
+            if codes and rblk.id() in cs.block_by_hash:
+                st.v("node-chain-state-holds-block:" + "+".join(sorted(codes & VALUE_CODES)), "class %s: after delivery over the wire "
+                     "(with a miner acting inside the validation window: %s) the node's chain state holds a block that breaks %s" % (
+                         cls, bool(acted), sorted(codes)), w)
+            # conservation along the node's active chain, from the real maps
+            bid = cs.current_chain_hash
+            while bid not in checked and bid != ref.ZERO32:
+                blk = cs.block_by_hash[bid]
+                checked.add(bid)
+                tot = sum(o.value for o in cs.unspent_transaction_outs_by_hash[bid].values())
+                ptot = sum(o.value for o in cs.unspent_transaction_outs_by_hash[blk.previous_block_hash].values())
+                c["node_lane_conservation_checks"] = c.get("node_lane_conservation_checks", 0) + 1
+                if tot > ptot + ref.subsidy(blk.height):
+                    st.v("node-active-chain-inflates", "block h=%d on the node's active chain raises the unspent total by %d, subsidy is %d" % (
+                        blk.height, tot - ptot, ref.subsidy(blk.height)), w)
+                bid = blk.previous_block_hash
+            if not codes and rblk.id() in cs.block_by_hash:
+                world.cs = world.cs.add_block_no_validation(bridge.rblock_to_real(rblk))
+                world.accept(rblk, bridge.rblock_to_real(rblk), cs=world.cs)
+            if acted:
+                break          # the node now holds blocks the harness' world does not know: end this setup
+            while len(sn.active()) < 2:
+                sn.add_peer()
+        rp.validate_block_in_coinstate = rp._skv_orig_validate
+        sn.close()
+
+
 def run_shard(spec):
     env.boot()
     st = ValueStream(VALUE_CODES, "accepted-despite")
@@ -174,6 +264,8 @@ def run_shard(spec):
     for _ in range(3 if quick else 50):
         st.run_world(rng, cstream.C02_CLASSES, nblocks=rng.choice([8, 14, 22]), ncand=50 if quick else 70, bad_key_prob=0.0)
     d.run(rng, 250 if quick else 6000)
+    if spec["shard"] % 4 == 0:
+        node_lane(st, rng, 3 if quick else 40, 12)
     res = st.result()
     res["evaluations"] += d.c["by_itself_calls"] + d.c["in_state_calls"] + d.c["reward_calls"]
     res["digests"] = sorted(set(res["digests"]) | d.digests)
@@ -187,7 +279,8 @@ def finalize(m, tier):
     c = m["counters"]
     floors = [("attempts", c.get("attempts", 0), 500), ("conservation_checks", c.get("conservation_checks", 0), 200),
               ("direct by-itself calls", c.get("direct", {}).get("by_itself_calls", 0), 2000),
-              ("direct reward calls", c.get("direct", {}).get("reward_calls", 0), 500)]
+              ("direct reward calls", c.get("direct", {}).get("reward_calls", 0), 500),
+              ("node_lane_deliveries", c.get("node_lane_deliveries", 0), 60)]
     for cls in cstream.C02_CLASSES:
         floors.append(("class " + cls, c.get("by_class", {}).get(cls, 0), 8))
     if c.get("ref_valid_but_rejected", 0):
